@@ -16,7 +16,7 @@ META = {
         "has_subregions, k mod 4 for kind 3); a case is non-trivial when some axis has >= 3 "
         "cells (>= 2 for kinds 1-3) so that derivatives are not identically zero."
     ),
-    "cases": {"quick": 400, "thorough": 12000},
+    "cases": {"quick": 400, "thorough": 8000},
     "workers": {"quick": 8, "thorough": 16},
     "timeout": {"quick": 600, "thorough": 5400},
     "deciding": [
